@@ -1590,6 +1590,195 @@ def generate_step():
     return '\n'.join(lines) + '\n'
 
 
+# ---------------------------------------------------------------- translator to coq/CtorAst.v
+BASE_LEVEL = {'UnaryExpression', 'BinaryExpression', 'NAryExpression', 'Constant', 'Variable'}
+
+
+class CtorTranslator:
+    """__init__ methods, operators, number helpers -> CtorAst.cfun (fail-closed)"""
+
+    def __init__(self, where, owner):
+        self.where = where
+        self.owner = owner
+
+    def fail(self, what, node=None):
+        raise TieError('cannot translate %s in %s: %s' % (what, self.where, ast.dump(node)[:160] if node is not None else ''))
+
+    def is_name_illegal(self, e):
+        # (not name) or (ALPHANUMERIC_PATTERN.match(name) is None)
+        if not (isinstance(e, ast.BoolOp) and isinstance(e.op, ast.Or) and len(e.values) == 2):
+            return None
+        a, b = e.values
+        if not (isinstance(a, ast.UnaryOp) and isinstance(a.op, ast.Not) and isinstance(a.operand, ast.Name)):
+            return None
+        nm = a.operand.id
+        if isinstance(b, ast.Compare) and len(b.ops) == 1 and isinstance(b.ops[0], ast.Is) \
+                and isinstance(b.comparators[0], ast.Constant) and b.comparators[0].value is None \
+                and isinstance(b.left, ast.Call) and isinstance(b.left.func, ast.Attribute) and b.left.func.attr == 'match' \
+                and isinstance(b.left.func.value, ast.Name) and b.left.func.value.id == 'ALPHANUMERIC_PATTERN' \
+                and len(b.left.args) == 1 and isinstance(b.left.args[0], ast.Name) and b.left.args[0].id == nm:
+            return nm
+        return None
+
+    def expr(self, e):
+        nm = self.is_name_illegal(e)
+        if nm is not None:
+            return '(CNameIllegal (CName %s))' % coq_str(nm)
+        if isinstance(e, ast.Name):
+            return 'CSelf' if e.id == 'self' else '(CName %s)' % coq_str(e.id)
+        if isinstance(e, ast.Constant):
+            if e.value is None:
+                return 'CNone'
+            if isinstance(e.value, int) and not isinstance(e.value, bool):
+                return '(CInt (%d)%%Z)' % e.value
+            self.fail('literal', e)
+        if isinstance(e, ast.Attribute) and isinstance(e.value, ast.Name) and e.value.id == 'math' and e.attr == 'e':
+            return 'CMathE'
+        if isinstance(e, ast.Attribute) and e.attr == 'name':
+            return '(CAttrName %s)' % self.expr(e.value)
+        if isinstance(e, ast.UnaryOp) and isinstance(e.op, ast.Not):
+            return '(CNot %s)' % self.expr(e.operand)
+        if isinstance(e, ast.BoolOp) and isinstance(e.op, (ast.And, ast.Or)):
+            c = 'CAnd' if isinstance(e.op, ast.And) else 'COr'
+            out = self.expr(e.values[-1])
+            for x in reversed(e.values[:-1]):
+                out = '(%s %s %s)' % (c, self.expr(x), out)
+            return out
+        if isinstance(e, ast.Compare) and len(e.ops) == 1:
+            op, l, r = e.ops[0], e.left, e.comparators[0]
+            if isinstance(op, (ast.Is, ast.IsNot)) and isinstance(r, ast.Constant) and r.value is None:
+                t = '(CIsNone %s)' % self.expr(l)
+                return t if isinstance(op, ast.Is) else '(CNot %s)' % t
+            if isinstance(op, ast.Eq) and isinstance(l, ast.BinOp) and isinstance(l.op, ast.Mod) \
+                    and isinstance(l.right, ast.Constant) and l.right.value == 2 and isinstance(r, ast.Constant) and r.value in (0, 1):
+                return '(CMod2Is (%d)%%Z %s)' % (r.value, self.expr(l.left))
+            if isinstance(op, (ast.LtE, ast.Eq)) and isinstance(r, ast.Constant) and isinstance(r.value, int) and not isinstance(r.value, bool):
+                return '(CCmp %s %s %s)' % (coq_str('<=' if isinstance(op, ast.LtE) else '=='), self.expr(l), self.expr(r))
+            self.fail('comparison', e)
+        if isinstance(e, ast.Call) and not e.keywords:
+            f, a = e.func, e.args
+            if isinstance(f, ast.Name) and f.id == 'isinstance' and len(a) == 2:
+                k = a[1]
+                if (isinstance(k, ast.Attribute) and k.attr == 'Expression') or (isinstance(k, ast.Name) and k.id == 'Expression'):
+                    return '(CIsExpr %s)' % self.expr(a[0])
+                if isinstance(k, ast.Name) and k.id == 'int':
+                    return '(CIsInt %s)' % self.expr(a[0])
+                if isinstance(k, ast.Name) and k.id == 'float':
+                    return '(CIsFloat %s)' % self.expr(a[0])
+                if isinstance(k, ast.Name) and k.id == 'str':
+                    return '(CIsStr %s)' % self.expr(a[0])
+                self.fail('isinstance class', e)
+            if isinstance(f, ast.Name) and f.id == 'round' and len(a) == 1:
+                return '(CRound %s)' % self.expr(a[0])
+            if isinstance(f, ast.Name) and f.id == 'is_integer' and len(a) == 1:
+                return '(CCallIsInteger %s)' % self.expr(a[0])
+            if isinstance(f, ast.Attribute) and f.attr == 'is_integer' and not a:
+                return '(CFloatIsInteger %s)' % self.expr(f.value)
+            if isinstance(f, ast.Attribute) and isinstance(f.value, ast.Name) and f.value.id == 'util' \
+                    and f.attr == 'integer_from_integral_float' and len(a) == 1:
+                return '(CIntegral %s)' % self.expr(a[0])
+            if isinstance(f, ast.Attribute) and isinstance(f.value, ast.Name) and f.value.id == 'ex' and f.attr in CLASS_NAMES:
+                return '(CMk %s %s)' % (coq_str(f.attr), coq_list([self.expr(x) for x in a]))
+        self.fail('expression', e)
+
+    def block(self, stmts):
+        out = []
+        for st in stmts:
+            if isinstance(st, ast.Expr) and isinstance(st.value, ast.Constant):
+                continue
+            if isinstance(st, ast.AnnAssign) and st.value is None:
+                continue
+            out.append(self.stmt(st))
+        return coq_list(out)
+
+    def stmt(self, st):
+        if isinstance(st, ast.Raise):
+            return 'CSRaise'
+        if isinstance(st, ast.Return):
+            return '(CSReturn %s)' % ('CNone' if st.value is None else self.expr(st.value))
+        if isinstance(st, ast.If):
+            return '(CSIf %s %s %s)' % (self.expr(st.test), self.block(st.body), self.block(st.orelse))
+        if isinstance(st, ast.Assign) and len(st.targets) == 1:
+            t = st.targets[0]
+            if isinstance(t, ast.Name):
+                if t.id == 'variable_names':
+                    return 'CSBook'
+                return '(CSAssign %s %s)' % (coq_str(t.id), self.expr(st.value))
+            if isinstance(t, ast.Attribute) and isinstance(t.value, ast.Name) and t.value.id == 'self':
+                if t.attr == '_value' and isinstance(st.value, ast.Constant) and st.value.value is None:
+                    return 'CSBook'
+                if t.attr == '_inners' and isinstance(st.value, ast.Call) and isinstance(st.value.func, ast.Name) \
+                        and st.value.func.id == 'list' and len(st.value.args) == 1:
+                    return '(CSSetInners %s)' % self.expr(st.value.args[0])
+                return '(CSSetField %s %s)' % (coq_str(t.attr), self.expr(st.value))
+        if isinstance(st, ast.For) and not st.orelse and isinstance(st.target, ast.Name) and isinstance(st.iter, ast.Name) \
+                and st.iter.id == 'args':
+            return '(CSForArgs %s %s)' % (coq_str(st.target.id), self.block(st.body))
+        if isinstance(st, ast.Expr) and isinstance(st.value, ast.Call):
+            c = st.value
+            if isinstance(c.func, ast.Attribute) and c.func.attr == '__init__' and isinstance(c.func.value, ast.Call) \
+                    and isinstance(c.func.value.func, ast.Name) and c.func.value.func.id == 'super' and not c.func.value.args:
+                if self.owner in BASE_LEVEL:
+                    return 'CSBook'          # Expression.__init__(variable_names): set and flags bookkeeping
+                if c.keywords:
+                    self.fail('keyword arguments to super().__init__', st)
+                return '(CSSuperInit %s)' % coq_list([self.expr(x) for x in c.args])
+        self.fail('statement', st)
+
+    def function(self, fd, is_method=True):
+        a = fd.args
+        if a.kwonlyargs or a.kwarg or a.posonlyargs:
+            self.fail('parameters', fd)
+        params = [p.arg for p in a.args]
+        if is_method:
+            if not params or params[0] != 'self':
+                self.fail('method without self', fd)
+            params = params[1:]
+        if a.vararg:
+            params.append(a.vararg.arg)
+        return '{| c_params := %s; c_body := %s |}' % (coq_list([coq_str(p) for p in params]), self.block(fd.body))
+
+
+CTOR_OPERATORS = ('__neg__', '__add__', '__sub__', '__mul__', '__truediv__', '__pow__')
+
+
+def generate_ctor():
+    lines = ['(* GENERATED by harness/tie_extract.py: the current source of the __init__ methods, the operators of',
+             '   Expression and the number helpers of utilities.py, translated into CtorAst.cfun -- do not edit *)',
+             'From Coq Require Import ZArith List String.', 'From SM Require Import CtorAst.',
+             'Import ListNotations.', 'Open Scope string_scope.', '']
+    defaults = []
+    files = [('expression', fn) for fn in EXPR_FILES] + [('base_expression', fn) for fn in BASE_FILES]
+    for sub, fn in files:
+        t = parse(os.path.join(SRC, '_private', sub, fn + '.py'))
+        for node in t.body:
+            if isinstance(node, ast.ClassDef):
+                for m in methods_of(node):
+                    if m.name == '__init__':
+                        tr = CtorTranslator('%s.__init__' % node.name, node.name)
+                        lines.append('Definition gen_ctor_%s_init : cfun := %s.' % (node.name, tr.function(m)))
+                        defaults.append((node.name, [ast.unparse(d) for d in m.args.defaults]))
+            if isinstance(node, ast.FunctionDef) and node.name == 'get_variable_name':
+                tr = CtorTranslator('variable.get_variable_name', '')
+                lines.append('Definition gen_ctor_fn_get_variable_name : cfun := %s.' % tr.function(node, False))
+    t = parse(os.path.join(SRC, '_private', 'base_expression', 'expression.py'))
+    for node in t.body:
+        if isinstance(node, ast.ClassDef) and node.name == 'Expression':
+            for m in methods_of(node):
+                if m.name in CTOR_OPERATORS:
+                    tr = CtorTranslator('Expression.%s' % m.name, 'Expression')
+                    lines.append('Definition gen_ctor_op_%s : cfun := %s.' % (m.name.strip('_'), tr.function(m)))
+    t = parse(os.path.join(SRC, '_private', 'utilities.py'))
+    for node in t.body:
+        if isinstance(node, ast.FunctionDef) and node.name in ('is_integer', 'integer_from_integral_float', 'is_even', 'is_odd'):
+            tr = CtorTranslator('utilities.%s' % node.name, '')
+            lines.append('Definition gen_ctor_fn_%s : cfun := %s.' % (node.name, tr.function(node, False)))
+    lines.append('')
+    lines.append('Definition gen_ctor_defaults : list (string * list string) := ' +
+                 coq_list(['(%s, %s)' % (coq_str(c), coq_list([coq_str(d) for d in ds])) for c, ds in defaults]) + '.')
+    return '\n'.join(lines) + '\n'
+
+
 def write_if_changed(path, text):
     old = open(path).read() if os.path.exists(path) else None
     if old != text:
@@ -1657,6 +1846,14 @@ def main():
         print('TIE-TRANSLATE-FAILED: %s' % ex)
     if write_if_changed(os.path.join(coqdir, 'GeneratedStep.v'), ttext):
         print('GeneratedStep.v rewritten')
+    try:
+        ctext = generate_ctor()
+    except (TieError, SyntaxError, OSError) as ex:
+        ctext = ('(* GENERATED: the translator FAILED CLOSED: %s *)\n'
+                 'Definition ctor_translator_failed : False := I.\n') % str(ex).replace('*)', '* )')
+        print('TIE-TRANSLATE-FAILED: %s' % ex)
+    if write_if_changed(os.path.join(coqdir, 'GeneratedCtor.v'), ctext):
+        print('GeneratedCtor.v rewritten')
     out = sys.argv[1] if len(sys.argv) > 1 else os.path.join(os.path.dirname(os.path.dirname(os.path.abspath(__file__))), 'coq', 'Generated.v')
     try:
         text = generate()
